@@ -30,8 +30,16 @@ BUDGET = {"quick": (2500, 45), "thorough": (60000, 540)}
 REQUIRED_COUNTERS = ["sanitizer_passes", "fault_runs", "hook_events",
                      "failure_states_checked"]
 
-gen_case = rwbase.gen_case
 MAXK = 8
+
+
+def gen_case(rng, tier, index):
+    case = rwbase.gen_case(rng, tier, index)
+    if rng.random() < 0.2:
+        from . import c06
+        case["newfuncs"] = [c06.new_function(rng, case, k)
+                            for k in range(rng.choice([1, 1, 2]))]
+    return case
 
 
 def zero_block_context(case, r, block):
